@@ -2291,7 +2291,9 @@ func (c *Conn) handleCloseError(closeErr *closeError) {
 		c.connIDGenerator.ReplaceWithClosed(nil, 3*c.rttStats.PTO(false))
 		return
 	}
-	if closeErr.immediate {
+	// A connection that is closed in order to be re-created with another version has nothing to
+	// tell the peer (which doesn't speak this version), and doesn't linger.
+	if closeErr.immediate || errors.As(e, &recreateErr) {
 		c.connIDGenerator.RemoveAll()
 		return
 	}
